@@ -511,3 +511,319 @@ func injIdx(fns []string, inj func(string) bool) []int {
 	}
 	return out
 }
+
+// ---------- sort comparators ----------
+
+// comparatorIsTotal decides whether the less function handed to sort.Slice is a
+// strict total order on distinct elements. The comparator touches the two
+// elements only through comparisons of projections (a field, String(), the
+// precedence of a version through Same/LessThan/GreaterThan), so it is a finite
+// table over the orderings of those projections: it is evaluated on every
+// assignment of ranks {0,1,2} to (element, projection) for three elements no two
+// of which agree on all projections, and must be asymmetric, total and
+// transitive there. decided is false when the comparator does something the
+// evaluation does not model (then nothing is claimed).
+func comparatorIsTotal(less *ssa.Function) (ok bool, why string, decided bool) {
+	if len(less.Params) < 2 {
+		return true, "", false
+	}
+	pi, pj := less.Params[len(less.Params)-2], less.Params[len(less.Params)-1]
+	type ps struct {
+		proj string
+		side int // 0: element i, 1: element j, -1: none
+	}
+	var shape func(v ssa.Value, d int) (ps, bool)
+	shape = func(v ssa.Value, d int) (ps, bool) {
+		if d > 8 {
+			return ps{}, false
+		}
+		switch x := v.(type) {
+		case *ssa.UnOp:
+			if x.Op != token.MUL {
+				return ps{}, false
+			}
+			switch a := x.X.(type) {
+			case *ssa.IndexAddr:
+				switch a.Index {
+				case ssa.Value(pi):
+					return ps{"", 0}, true
+				case ssa.Value(pj):
+					return ps{"", 1}, true
+				}
+				return ps{}, false
+			case *ssa.FieldAddr:
+				if ia, ok := a.X.(*ssa.IndexAddr); ok {
+					f := ""
+					if st, ok := derefType(ia.Type()).Underlying().(*types.Struct); ok {
+						f = st.Field(a.Field).Name()
+					}
+					switch ia.Index {
+					case ssa.Value(pi):
+						return ps{"." + f, 0}, true
+					case ssa.Value(pj):
+						return ps{"." + f, 1}, true
+					}
+				}
+				return ps{}, false
+			}
+			return ps{}, false
+		case *ssa.Field:
+			in, ok := shape(x.X, d+1)
+			if !ok {
+				return ps{}, false
+			}
+			return ps{in.proj + "." + fieldOf(x).Name(), in.side}, true
+		case *ssa.Call:
+			o := calleeObj(x)
+			if o == nil || x.Call.IsInvoke() || len(x.Call.Args) != 1 {
+				if b, isB := x.Call.Value.(*ssa.Builtin); isB && b.Name() == "len" && len(x.Call.Args) == 1 {
+					in, ok := shape(x.Call.Args[0], d+1)
+					if !ok {
+						return ps{}, false
+					}
+					return ps{"len(" + in.proj + ")", in.side}, true
+				}
+				return ps{}, false
+			}
+			in, ok := shape(x.Call.Args[0], d+1)
+			if !ok {
+				return ps{}, false
+			}
+			return ps{in.proj + "." + o.Name() + "()", in.side}, true
+		case *ssa.ChangeType:
+			return shape(x.X, d+1)
+		case *ssa.Convert:
+			return shape(x.X, d+1)
+		}
+		return ps{}, false
+	}
+	type atom struct {
+		proj   string
+		op     token.Token
+		l, r   int
+	}
+	atomOf := func(v ssa.Value) (atom, bool) {
+		switch x := v.(type) {
+		case *ssa.BinOp:
+			switch x.Op {
+			case token.LSS, token.LEQ, token.GTR, token.GEQ, token.EQL, token.NEQ:
+			default:
+				return atom{}, false
+			}
+			a, ok1 := shape(x.X, 0)
+			b, ok2 := shape(x.Y, 0)
+			if !ok1 || !ok2 || a.proj != b.proj || a.side == b.side {
+				return atom{}, false
+			}
+			return atom{a.proj, x.Op, a.side, b.side}, true
+		case *ssa.Call:
+			o := calleeObj(x)
+			if o == nil || len(x.Call.Args) != 2 || !strings.HasSuffix(objPkgPath(o), "go-versions/versions") {
+				return atom{}, false
+			}
+			var op token.Token
+			switch o.Name() {
+			case "Same":
+				op = token.EQL
+			case "LessThan":
+				op = token.LSS
+			case "GreaterThan":
+				op = token.GTR
+			default:
+				return atom{}, false
+			}
+			a, ok1 := shape(x.Call.Args[0], 0)
+			b, ok2 := shape(x.Call.Args[1], 0)
+			if !ok1 || !ok2 || a.proj != b.proj || a.side == b.side {
+				return atom{}, false
+			}
+			return atom{a.proj + "≺", op, a.side, b.side}, true
+		}
+		return atom{}, false
+	}
+	// collect projections
+	projs := map[string]bool{}
+	undecided := false
+	eachInstr(less, func(in ssa.Instruction) {
+		v, isV := in.(ssa.Value)
+		if !isV {
+			return
+		}
+		if a, ok := atomOf(v); ok {
+			projs[a.proj] = true
+		}
+	})
+	// what identifies an element may be more than the comparator looks at: two versions of equal
+	// precedence differ in their build metadata
+	eachInstr(less, func(in ssa.Instruction) {
+		if ia, ok := in.(*ssa.IndexAddr); ok && (ia.Index == ssa.Value(pi) || ia.Index == ssa.Value(pj)) {
+			if n, ok := types.Unalias(derefType(ia.Type())).(*types.Named); ok && n.Obj().Name() == "Version" && n.Obj().Pkg() != nil && strings.HasSuffix(n.Obj().Pkg().Path(), "go-versions/versions") {
+				projs["≺"] = true
+				projs[".Metadata"] = true
+			}
+		}
+	})
+	var plist []string
+	for k := range projs {
+		plist = append(plist, k)
+	}
+	sort.Strings(plist)
+	if len(plist) == 0 || len(plist) > 3 {
+		return true, "", false
+	}
+	// a version's metadata and precedence together identify it; plain fields likewise — the model only
+	// excludes elements that agree on every projection the comparator looks at
+	const N = 3
+	rank := make([][]int, N)
+	for i := range rank {
+		rank[i] = make([]int, len(plist))
+	}
+	pidx := map[string]int{}
+	for i, k := range plist {
+		pidx[k] = i
+	}
+	evalCmp := func(a atom, x, y int) bool {
+		e := [2]int{x, y}
+		l, r := rank[e[a.l]][pidx[a.proj]], rank[e[a.r]][pidx[a.proj]]
+		switch a.op {
+		case token.LSS:
+			return l < r
+		case token.LEQ:
+			return l <= r
+		case token.GTR:
+			return l > r
+		case token.GEQ:
+			return l >= r
+		case token.EQL:
+			return l == r
+		}
+		return l != r
+	}
+	var evalBool func(v ssa.Value, x, y int, from *ssa.BasicBlock, d int) (bool, bool)
+	run := func(x, y int) (bool, bool) {
+		b := less.Blocks[0]
+		var prev *ssa.BasicBlock
+		for steps := 0; steps < 64; steps++ {
+			last := b.Instrs[len(b.Instrs)-1]
+			switch t := last.(type) {
+			case *ssa.Return:
+				if len(t.Results) != 1 {
+					return false, false
+				}
+				// the value may be a phi of this block: resolve with prev
+				return evalBool(t.Results[0], x, y, prev, 0)
+			case *ssa.If:
+				c, ok := evalBool(t.Cond, x, y, prev, 0)
+				if !ok {
+					return false, false
+				}
+				prev = b
+				if c {
+					b = b.Succs[0]
+				} else {
+					b = b.Succs[1]
+				}
+			case *ssa.Jump:
+				prev = b
+				b = b.Succs[0]
+			default:
+				return false, false
+			}
+		}
+		return false, false
+	}
+	evalBool = func(v ssa.Value, x, y int, from *ssa.BasicBlock, d int) (bool, bool) {
+		if d > 8 {
+			return false, false
+		}
+		if b, isC := constBool(v); isC {
+			return b, true
+		}
+		if u, ok := v.(*ssa.UnOp); ok && u.Op == token.NOT {
+			r, ok := evalBool(u.X, x, y, from, d+1)
+			return !r, ok
+		}
+		if a, ok := atomOf(v); ok {
+			return evalCmp(a, x, y), true
+		}
+		if ph, ok := v.(*ssa.Phi); ok && from != nil {
+			for i, pr := range ph.Block().Preds {
+				if pr == from {
+					return evalBool(ph.Edges[i], x, y, nil, d+1)
+				}
+			}
+		}
+		return false, false
+	}
+	total := 1
+	for i := 0; i < N*len(plist); i++ {
+		total *= 3
+	}
+	for code := 0; code < total; code++ {
+		c := code
+		for e := 0; e < N; e++ {
+			for q := range plist {
+				rank[e][q] = c % 3
+				c /= 3
+			}
+		}
+		distinct := true
+		for a := 0; a < N; a++ {
+			for b := a + 1; b < N; b++ {
+				same := true
+				for q := range plist {
+					if rank[a][q] != rank[b][q] {
+						same = false
+					}
+				}
+				if same {
+					distinct = false
+				}
+			}
+		}
+		if !distinct {
+			continue
+		}
+		var R [N][N]bool
+		for a := 0; a < N; a++ {
+			for b := 0; b < N; b++ {
+				if a == b {
+					continue
+				}
+				// element a plays i, element b plays j: evaluate with ranks of (a, b)
+				save0, save1 := rank[0], rank[1]
+				ra, rb := rank[a], rank[b]
+				rank[0], rank[1] = ra, rb
+				r, ok := run(0, 1)
+				rank[0], rank[1] = save0, save1
+				if !ok {
+					undecided = true
+				}
+				R[a][b] = r
+			}
+		}
+		if undecided {
+			return true, "", false
+		}
+		for a := 0; a < N; a++ {
+			for b := a + 1; b < N; b++ {
+				if R[a][b] == R[b][a] {
+					if R[a][b] {
+						return false, "the comparator says both a<b and b<a for two distinct elements (compared through " + strings.Join(plist, ", ") + ")", true
+					}
+					return false, "the comparator orders neither of two distinct elements before the other (compared through " + strings.Join(plist, ", ") + "): they keep the order they were appended in, which is map iteration order", true
+				}
+			}
+		}
+		for a := 0; a < N; a++ {
+			for b := 0; b < N; b++ {
+				for cc := 0; cc < N; cc++ {
+					if a != b && b != cc && a != cc && R[a][b] && R[b][cc] && !R[a][cc] {
+						return false, "the comparator is not transitive (compared through " + strings.Join(plist, ", ") + "): sort.Slice may leave the elements in an order that depends on the order they were appended in", true
+					}
+				}
+			}
+		}
+	}
+	return true, "", true
+}
